@@ -433,6 +433,24 @@ func cmdCheck(args []string) int {
 	}
 	consequences := 0
 	replays := 0
+	// one obligation that fails on several paths is ONE violation: its representative is the first path for which a solver
+	// produced a model (otherwise the first path); the other paths are still listed as FAILED-OBLIGATION lines
+	groupOf := func(id string) string {
+		if i := strings.LastIndex(id, "#"); i >= 0 {
+			return id[:i]
+		}
+		return id
+	}
+	repr := map[string]*Obligation{}
+	for _, o := range obls {
+		if o.Status == "discharged" {
+			continue
+		}
+		g := groupOf(o.ID)
+		if r, ok := repr[g]; !ok || (r.Model == "" && o.Model != "") {
+			repr[g] = o
+		}
+	}
 	for _, o := range obls {
 		funcsSeen[o.Func] = true
 		solverTime += o.Time
@@ -467,6 +485,10 @@ func cmdCheck(args []string) int {
 			consequences++
 			continue
 		}
+		fmt.Printf("FAILED-OBLIGATION %s [%s] %s :: %s %s\n", o.ID, o.Solver, o.Where, o.Spec, o.Detail)
+		if repr[groupOf(o.ID)] != o {
+			continue
+		}
 		os.MkdirAll(replayDir, 0o755)
 		rp := filepath.Join(replayDir, sanitize(o.ID)+".json")
 		replays++
@@ -476,7 +498,6 @@ func cmdCheck(args []string) int {
 			line += " no-failing-input-found"
 		}
 		violations = append(violations, line)
-		fmt.Printf("FAILED-OBLIGATION %s [%s] %s :: %s %s\n", o.ID, o.Solver, o.Where, o.Spec, o.Detail)
 	}
 	var funcs []string
 	for f := range funcsSeen {
